@@ -29,6 +29,8 @@ func main() {
 		docMain(os.Args[2:])
 	case "url":
 		urlMain(os.Args[2:])
+	case "struct":
+		structMain(os.Args[2:])
 	case "schema":
 		schemaMain(os.Args[2:])
 	default:
